@@ -225,6 +225,15 @@ def setColUnit (i : Info) (f : Frame) (name u : Str) : Info × Option Err :=
   else if dupLabel f name then (i, some .invalidNaming)
   else setUnits i f [(name, u)]
 
+/-- `Table.column_metadata[name].display_format = fmt`: consultation, `columns[name]`, attribute assignment -/
+def setColFmt (i : Info) (f : Frame) (name : Str) (fmt : Option Str) : Info × Option Err :=
+  match checkDataframe i f with
+  | (i1, some e) => (i1, some e)
+  | (i1, none) =>
+    match get i1.reg name with
+    | none => (i1, some .keyError)
+    | some m => ({ i1 with reg := set i1.reg name { m with fmt := fmt } }, none)
+
 /-- `{col: ColumnMetadata(unit) for col, unit in zip(df.columns, units)}` -/
 def zipReg : List (Str × Str) → Reg → Reg
   | [], r => r
@@ -369,6 +378,8 @@ inductive Op
   | setAllUnits (us : List Str)
   /-- `Table[name].unit = u` -/
   | setColUnit (name u : Str)
+  /-- `Table.column_metadata[name].display_format = ColumnFormat(…)` (or `None`) -/
+  | setFmt (name : Str) (fmt : Option Str)
   /-- `Table(t.df, units=…, strict_types=…)`: continue with the re-wrapped table if it could be built -/
   | rewrap (us : Option (List Str)) (strict : Option Bool)
   /-- a pandas operation that returns a new frame `f` (selection, copy, sort, reindex, concat, merge,
@@ -384,6 +395,7 @@ def step (t : Tbl) : Op → Tbl × Option Err
   | .setUnits m => let (i, e) := setUnits t.info t.frame m; ({ t with info := i }, e)
   | .setAllUnits us => let (i, e) := setAllUnits t.info t.frame us; ({ t with info := i }, e)
   | .setColUnit n u => let (i, e) := setColUnit t.info t.frame n u; ({ t with info := i }, e)
+  | .setFmt n fm => let (i, e) := setColFmt t.info t.frame n fm; ({ t with info := i }, e)
   | .rewrap us st =>
     match rewrap t.info t.frame us st with
     | (_, .ok i2) => ({ t with info := i2 }, none)
